@@ -11,6 +11,9 @@ CHECKS = {
  "C13": ("Complete enumeration of a closed value universe: all ordered pairs of 40 values x six comparison operators x both polarities x prefix not, with the right-hand side as literal and as query, plus all range-bracket forms x bound pairs x values, list membership and a regex table; algebraic laws are checked on the implementation's own results and every literal-form result is compared with a native comparison kernel.",
          "Trusted base: native Rust comparisons (i64::cmp, f64::partial_cmp, byte-wise str cmp), a 200-line backtracking regex matcher, the universe of 40 values; list operands are checked against the pinned one-level flattening, not the scalar laws.",
          "exhaustive enumeration of value pairs x operators against algebraic laws and a native kernel"),
+ "C03": ("Metamorphic exhaustive exploration, implementation against itself: for every positive clause of the single-clause universe (all unary and binary operators, all/some, literal and query right-hand sides) and every document, the clause, its prefix negation, its operator-level negation and the double negation are evaluated and related by the laws of the property (not c == c-bar, double negation, SKIP stays SKIP, single comparable value flips, ordering duals, not R, spellings).",
+         "Trusted base: the reference selection + native kernel decide only the side condition 'single comparable value'; all compared statuses come from the implementation.",
+         "exhaustive enumeration of clauses x documents with metamorphic negation laws on the implementation's own results"),
 }
 PENDING_REASON = "check under construction in this round (design in DESIGN.md section 5); not claimed until its quick tier runs clean on the unchanged tree"
 ALL = ["C%02d" % i for i in range(1, 20)]
